@@ -476,10 +476,12 @@ func c01Mutants(r *rand.Rand, sc *signCase, sig *pipeline.Signature, kp, other, 
 	}
 
 	// ---- verify-time pipeline env
+	// the pipeline variables this signature has to cover: those the step's own env does not define (taken from
+	// what was signed, not from what the record lists)
 	var signedEnv []string
-	for _, f := range sig.SignedFields {
-		if strings.HasPrefix(f, "env::") {
-			signedEnv = append(signedEnv, strings.TrimPrefix(f, "env::"))
+	for _, n := range refmodel.SortedKeys(sc.Penv) {
+		if _, shadowed := sc.Step.Env[n]; !shadowed {
+			signedEnv = append(signedEnv, n)
 		}
 	}
 	if len(signedEnv) > 0 {
@@ -707,6 +709,21 @@ func checkC01(c *run.Ctx) {
 		}
 		id := run.CaseID("step", i)
 		sig, signPayload, err := signStep(kp, sc.Step, sc.Repo, sc.Penv)
+		if err == nil && mix(i, 4, 4) == 0 && len(sc.Penv) > 0 {
+			// signed as the last of three by SignSteps, after siblings whose own env defines every pipeline variable:
+			// what the siblings shadow is still covered by this step's signature
+			shadow := map[string]string{}
+			for n := range sc.Penv {
+				shadow[n] = "defined by the sibling"
+			}
+			stepCopy := util.DeepCopy(sc.Step)
+			steps := pipeline.Steps{&pipeline.CommandStep{Command: "sibling", Env: shadow}, &pipeline.GroupStep{Steps: pipeline.Steps{&pipeline.CommandStep{Command: "nested sibling", Env: copyEnv(shadow)}}}, stepCopy}
+			l := &payloadLogger{}
+			if serr := signature.SignSteps(bg, steps, kp.Signer, sc.Repo, signature.WithEnv(copyEnv(sc.Penv)), signature.WithLogger(l), signature.WithDebugSigning(true)); serr == nil && stepCopy.Signature != nil {
+				sig, signPayload = stepCopy.Signature, l.last()
+				c.Count("steps_signed_last_in_a_list_after_shadowing_siblings", 1)
+			}
+		}
 		if err != nil {
 			c.Violation(id, map[string]any{"what": "Sign failed: " + err.Error(), "document": sc.Text})
 			return
